@@ -30,6 +30,12 @@
 #include "Variogram/Vario.hpp"
 #include "Simulation/CalcSimuTurningBands.hpp"
 #include "Calculators/CalcMigrate.hpp"
+#include "Anamorphosis/AnamHermite.hpp"
+#include "Stats/PCA.hpp"
+#include "Polygon/Polygons.hpp"
+#include "Polygon/PolyElem.hpp"
+#include "Variogram/VMap.hpp"
+#include "Variogram/VCloud.hpp"
 #include "Variogram/VarioParam.hpp"
 #include "Variogram/DirParam.hpp"
 #include "Neigh/NeighMoving.hpp"
@@ -41,6 +47,32 @@ using namespace c05;
 
 static const double EPS = 2.220446049250313e-16;
 #define TRACE(c, ...) do { if ((c).verbose) { fprintf(stderr, "TRACE " __VA_ARGS__); fputc('\n', stderr); } } while (0)
+
+// Violation key of a case.  Two input classes are hit by defects that make MANY oracles of an operation fail for one
+// and the same reason; for them the key is collapsed to one per operation so that it can be listed once:
+//   * samples with an undefined coordinate  -> C05:<op>:undefined-coordinate
+//   * selection whose "off" value is the undefined value     -> C05:<op>:selection-value-undefined
+//   * samples whose external drift is undefined              -> C05:<op>:external-drift-undefined
+//   * moving neighbourhood / migration using the ball-tree search -> C05:<op>:ball-search
+// Otherwise the key is C05:<op>[:<variant>]:by=<drop mechanism><:what failed>.
+struct Key
+{
+  std::string base;
+  bool collapsed = false;
+  std::string operator+(const std::string& sfx) const { return collapsed ? base : base + sfx; }
+  std::string operator+(const char* sfx) const { return collapsed ? base : base + sfx; }
+  Key& operator+=(const std::string& sfx) { if (!collapsed) base += sfx; return *this; }
+  // key for the "nothing is left after removal" oracles (not tied to a drop mechanism)
+  std::string nothing(const std::string& plain) const { return collapsed ? base : plain; }
+};
+static Key mkKey(const std::string& op, const std::string& variant, const Samples& s, bool ball = false, const std::string& family = "")
+{
+  if (ball) return Key {"C05:" + op + ":ball-search", true};
+  if (s.by == BY_UCOORD) return Key {"C05:" + (family.empty() ? op : family) + ":undefined-coordinate", true};
+  if (s.by == BY_SELNA) return Key {"C05:" + (family.empty() ? op : family) + ":selection-value-undefined", true};
+  if (s.ufext) return Key {"C05:" + (family.empty() ? op : family) + ":external-drift-undefined", true};
+  return Key {"C05:" + op + (variant.empty() ? "" : ":" + variant) + ":" + s.tag(), false};
+}
 
 // all cells of the columns created since 'ncol0' are undefined (rows: all)
 static bool allNewUndefined(const Db* db, int ncol0, std::string& where)
@@ -127,8 +159,14 @@ struct Targets
   std::vector<std::vector<double>> x;
   std::vector<int> masked; // 1 = switched off by the target selection
   std::vector<int> active; // ranks of active targets
+  std::vector<double> f;   // optional external drift at the targets
   SelMode selMode = SEL_NONE;
 };
+// external drift function (smooth function of the location), the same for data and targets
+static double fextAt(const std::vector<std::vector<double>>& x, int i)
+{
+  return 0.02 * x[0][i] + std::sin(x[x.size() - 1][i] / 17.);
+}
 
 static Targets genTargets(Rng& r, const Samples& s, int mmin, int mmax)
 {
@@ -169,16 +207,92 @@ static std::unique_ptr<Db> mkTargetsMasked(const Targets& t)
 {
   std::vector<double> sel(t.m);
   for (int j = 0; j < t.m; j++) sel[j] = t.masked[j] ? 0. : 1.;
-  std::unique_ptr<Db> db = mkDb(t.m, t.x, {}, t.selMode == SEL_NONE ? nullptr : &sel);
+  std::vector<double> f = t.f;
+  for (int j = 0; j < t.m && !f.empty(); j++) if (t.masked[j]) f[j] = POISON_VAL;
+  std::unique_ptr<Db> db = mkDb(t.m, t.x, {}, t.selMode == SEL_NONE ? nullptr : &sel, nullptr, &f);
   return db;
 }
 static std::unique_ptr<Db> mkTargetsReduced(const Targets& t)
 {
   int ma = (int)t.active.size();
   std::vector<std::vector<double>> x(t.x.size(), std::vector<double>(ma));
+  std::vector<double> f;
   for (int k = 0; k < ma; k++)
+  {
     for (size_t d = 0; d < t.x.size(); d++) x[d][k] = t.x[d][t.active[k]];
-  return mkDb(ma, x, {}, nullptr);
+    if (!t.f.empty()) f.push_back(t.f[t.active[k]]);
+  }
+  return mkDb(ma, x, {}, nullptr, nullptr, &f);
+}
+
+
+// grid targets: a small regular grid over the field with an optional selection on its cells.
+// Reference for masked cells: the same grid WITHOUT selection (a grid cannot lose cells and stay a grid); each
+// cell's result does not depend on the other cells for the operations using it (kriging, conditional simulation).
+struct GridT
+{
+  VectorInt nx;
+  VectorDouble dx, x0;
+  int m = 0;
+  std::vector<int> masked, active;
+  SelMode selMode = SEL_NONE;
+};
+static GridT genGrid(Rng& r, const Samples& s, int maxCells)
+{
+  GridT g;
+  g.nx.resize(s.ndim); g.dx.resize(s.ndim); g.x0.resize(s.ndim);
+  int per = s.ndim == 1 ? std::min(maxCells, 12) : s.ndim == 2 ? (int)std::sqrt((double)maxCells) : (int)std::cbrt((double)maxCells);
+  g.m = 1;
+  for (int d = 0; d < s.ndim; d++)
+  {
+    g.nx[d] = r.irange(2, std::max(2, per));
+    g.dx[d] = s.field / g.nx[d] * r.uni(0.7, 1.1);
+    g.x0[d] = r.uni(-5, 10);
+    g.m *= g.nx[d];
+  }
+  double u  = r.u01();
+  g.selMode = u < 0.4 ? SEL_NONE : u < 0.8 ? SEL_RANDOM : u < 0.88 ? SEL_ALMOST_EMPTY : u < 0.94 ? SEL_EMPTY : SEL_FULL;
+  g.masked.assign(g.m, 0);
+  if (g.selMode == SEL_RANDOM) { double p = r.uni(0.2, 0.6); for (auto& v : g.masked) v = r.coin(p); }
+  else if (g.selMode == SEL_ALMOST_EMPTY) { for (auto& v : g.masked) v = 1; g.masked[r.irange(0, g.m - 1)] = 0; }
+  else if (g.selMode == SEL_EMPTY) for (auto& v : g.masked) v = 1;
+  for (int j = 0; j < g.m; j++) if (!g.masked[j]) g.active.push_back(j);
+  return g;
+}
+// the active cells of a grid as a point Db (physical removal of the masked cells); coordinates are read from the grid
+static std::unique_ptr<Db> mkPointsFromGrid(const DbGrid* grid, const GridT& g, bool withF)
+{
+  int nd = grid->getNDim(), ma = (int)g.active.size();
+  std::vector<std::vector<double>> x(nd, std::vector<double>(ma));
+  std::vector<double> f;
+  for (int d = 0; d < nd; d++)
+  {
+    VectorDouble cd = grid->getCoordinates(d, false);
+    for (int k = 0; k < ma; k++) x[d][k] = cd[g.active[k]];
+  }
+  if (withF)
+    for (int k = 0; k < ma; k++) f.push_back(fextAt(x, k));
+  return mkDb(ma, x, {}, nullptr, nullptr, &f);
+}
+static std::unique_ptr<DbGrid> mkGrid(const GridT& g, bool withSel, bool withF = false)
+{
+  std::unique_ptr<DbGrid> db(DbGrid::create(g.nx, g.dx, g.x0));
+  if (withF)
+  {
+    int nd = db->getNDim();
+    std::vector<std::vector<double>> x(nd);
+    for (int d = 0; d < nd; d++) { VectorDouble cd = db->getCoordinates(d, false); x[d] = cd.getVector(); }
+    VectorDouble f(g.m);
+    for (int j = 0; j < g.m; j++) f[j] = (withSel && g.masked[j]) ? POISON_VAL : fextAt(x, j);
+    db->addColumns(f, "f1", ELoc::F, 0);
+  }
+  if (withSel && g.selMode != SEL_NONE)
+  {
+    VectorDouble sel(g.m);
+    for (int j = 0; j < g.m; j++) sel[j] = g.masked[j] ? 0. : 1.;
+    db->addColumns(sel, "sel", ELoc::SEL, 0);
+  }
+  return db;
 }
 
 // snapshot of all cells of the first ncol columns (to prove "left untouched")
@@ -203,9 +317,10 @@ static bool sameSnapshot(const std::vector<double>& a, const std::vector<double>
 // Generic comparison of the columns created by an operation in (dbA masked run) and (dbB reduced run).
 //   mapA : rows of dbA that correspond to rows 0.. of dbB;  offA : rows of dbA that are switched off (must be TEST)
 // exact=true demands bit-for-bit equality, else |a-b| <= reltol * max(scale, floor)
-static void cmpOutputs(Ctx& c, const std::string& op, const std::string& key, const Db* dbA, int ncolA0,
+static void cmpOutputs(Ctx& c, const std::string& op, const Key& key, const Db* dbA, int ncolA0,
                        const std::vector<int>& mapA, const std::vector<int>& offA, const Db* dbB, int ncolB0,
-                       bool exact, double reltol, double floor)
+                       bool exact, double reltol, double floor, const std::string& keyOff = "",
+                       const std::vector<int>* mapB = nullptr)
 {
   VectorString na = newColumns(dbA, ncolA0), nb = newColumns(dbB, ncolB0);
   bool same = na.size() == nb.size();
@@ -217,7 +332,7 @@ static void cmpOutputs(Ctx& c, const std::string& op, const std::string& key, co
     return;
   if (na.empty()) return;
   CmpRes res;
-  for (size_t i = 0; i < na.size(); i++) cmpColumn(dbA, na[i], mapA, dbB, nb[i], res);
+  for (size_t i = 0; i < na.size(); i++) cmpColumn(dbA, na[i], mapA, dbB, nb[i], res, mapB);
   if (exact)
     c.check(op + ":equal", key + ":differs", res.worst == 0, res.worst, 0, res.where);
   else
@@ -237,7 +352,7 @@ static void cmpOutputs(Ctx& c, const std::string& op, const std::string& key, co
       for (int j : offA)
         if (!(a[j] == TEST)) { ok = false; w = fmt("%s[row %d]=%.17g (expected TEST)", na[i].c_str(), j, a[j]); break; }
     }
-    c.truth(op + ":off-rows-TEST", key + ":masked-row-written", ok, w);
+    c.truth(op + ":off-rows-TEST", keyOff.empty() ? key + ":masked-row-written" : keyOff, ok, w);
   }
 }
 
@@ -289,52 +404,94 @@ static void opKriging(Rng& r, Ctx& c)
   Samples s = genSamples(r, o);
   defineDefaultSpace(ESpaceType::RN, s.ndim);
   int drift = r.irange(-1, 1);
+  // external drift (ELoc::F): a sample whose external drift is undefined is one more kind of undefined sample
+  // (KrigingSystem::_flagDefine: "Check on the external drifts" switches all its variables off)
+  bool fext = r.coin(0.25);
+  if (fext)
+  {
+    if (drift < 0) drift = 0;
+    s.f.resize(s.n);
+    for (int i = 0; i < s.n; i++) s.f[i] = fextAt(s.x, i) + 0.05 * r.normal();
+    bool mayDrop = r.coin(0.6);
+    if (mayDrop && s.by != BY_SELNA && s.by != BY_UCOORD && !avoid("ufext", AVOID_UFEXT)) // (one exotic mechanism at a time)
+    {
+      double p = r.uni(0.1, 0.35);
+      for (int i = 0; i < s.n; i++)
+        if (s.cls[i] == KEEP && r.coin(p)) { s.cls[i] |= FEXTUNDEF; s.ufext = true; }
+      s.rebuildKept();
+    }
+  }
   ModelSpec ms;
   auto model = genModel(r, s.ndim, s.nvar, drift, ms);
+  if (fext) { model->setDriftIRF(drift, 1); ms.desc += "+fext"; }
   NeighSpec ns = genNeigh(r, s.ndim);
   std::string nd = ns.desc;
   auto neigh = mkNeigh(ns, false), neighR = mkNeigh(ns, false);
+  bool gridT  = r.coin(0.3);
   Targets t   = genTargets(r, s, 4, c.thorough() ? 40 : 14);
+  GridT g     = genGrid(r, s, c.thorough() ? 60 : 20);
+  if (fext) { t.f.resize(t.m); for (int j = 0; j < t.m; j++) t.f[j] = fextAt(t.x, j); }
   bool flagStd = r.coin(0.8), flagVarz = r.coin(0.3);
-  c.setSig(fmt("kriging:%s:ndim=%d:nvar=%d:%s:tsel=%s:drift=%d", nd.c_str(), s.ndim, s.nvar, s.sigtag().c_str(),
-               SELN[t.selMode], drift));
-  c.puts("op", "kriging");
+  bool neighOnly = r.coin(0.15); // test_neigh(): neighbourhood statistics per target instead of the estimation
+  SelMode tsel = gridT ? g.selMode : t.selMode;
+  std::vector<int> active = gridT ? g.active : t.active;
+  int mtot = gridT ? g.m : t.m;
+  c.setSig(fmt("kriging:%s:ndim=%d:nvar=%d:%s:tgt=%s:tsel=%s:drift=%d:fext=%d", nd.c_str(), s.ndim, s.nvar, s.sigtag().c_str(), gridT ? "grid" : "points",
+               SELN[tsel], drift, (int)fext + (int)s.ufext));
+  if (neighOnly) c.setSig(c.sig + ":test_neigh");
+  c.puts("op", neighOnly ? "test_neigh" : "kriging");
   c.puts("neigh", nd);
   c.puts("model", ms.desc);
-  c.put("n_kept_targets", fmt("[%d,%d,%d,%d]", s.n, s.nkept(), t.m, (int)t.active.size()));
+  c.puts("targets", gridT ? "grid" : "points");
+  c.put("n_kept_targets", fmt("[%d,%d,%d,%d]", s.n, s.nkept(), mtot, (int)active.size()));
 
   auto dinM = mkMasked(r, s);
   auto dinR = mkReduced(s);
-  auto doutM = mkTargetsMasked(t);
-  auto doutR = mkTargetsReduced(t);
-  std::string K = "C05:kriging:" + nd + ":" + s.tag();
+  std::unique_ptr<Db> doutM, doutR;
+  if (gridT)
+  {
+    std::unique_ptr<DbGrid> gm = mkGrid(g, true, fext);
+    doutR = mkPointsFromGrid(gm.get(), g, fext);
+    doutM = std::move(gm);
+  }
+  else
+  {
+    doutM = mkTargetsMasked(t);
+    doutR = mkTargetsReduced(t);
+  }
+  Key K = mkKey("kriging", neighOnly ? "test_neigh:" + nd : nd, s, ns.kind == 2);
+  auto krige = [&](Db* din, Db* dout, ANeigh* ng) {
+    if (neighOnly) return test_neigh(din, dout, model.get(), ng);
+    return kriging(din, dout, model.get(), ng, EKrigOpt::POINT, true, flagStd, flagVarz);
+  };
 
   int ncM = doutM->getColumnNumber(), ncR = doutR->getColumnNumber();
   int ncDin = dinM->getColumnNumber();
   std::vector<double> snapOut = snapshot(doutM.get(), ncM), snapIn = snapshot(dinM.get(), ncDin);
-  bool nothing = s.nkept() == 0 || t.active.empty(); // nothing left after removal: no reduced run possible
-  TRACE(c, "kriging %s n=%d kept=%d targets=%d active=%zu -> masked run", s.sigtag().c_str(), s.n, s.nkept(), t.m, t.active.size());
-  int errM = kriging(dinM.get(), doutM.get(), model.get(), neigh.get(), EKrigOpt::POINT, true, flagStd, flagVarz);
+  bool nothing = s.nkept() == 0 || active.empty(); // nothing left after removal: no reduced run possible
+  TRACE(c, "kriging %s n=%d kept=%d targets=%d active=%zu grid=%d fext=%d -> masked run", s.sigtag().c_str(), s.n, s.nkept(), mtot, active.size(), (int)gridT, (int)fext);
+  int errM = krige(dinM.get(), doutM.get(), neigh.get());
   std::vector<int> off;
-  for (int j = 0; j < t.m; j++) if (t.masked[j]) off.push_back(j);
+  for (int j = 0; j < mtot; j++) if (gridT ? g.masked[j] : t.masked[j]) off.push_back(j);
   if (nothing)
   {
     // no data (or no target) is left: the call may refuse, but it must not produce any value
     std::string w;
     bool ok = allNewUndefined(doutM.get(), ncM, w);
-    c.truth("kriging:nothing-left", "C05:kriging:" + nd + (s.nkept() == 0 ? ":no-active-data" : ":no-active-target") + ":value-produced", ok,
+    c.truth("kriging:nothing-left", K.nothing("C05:kriging:" + nd + (s.nkept() == 0 ? ":no-active-data" : ":no-active-target") + ":value-produced"), ok,
             fmt("rc=%d ", errM) + w);
   }
   else
   {
     TRACE(c, "-> reduced run");
-    int errR = kriging(dinR.get(), doutR.get(), model.get(), neighR.get(), EKrigOpt::POINT, true, flagStd, flagVarz);
-    c.truth("kriging:rc", K + ":return-code", (errM == 0) == (errR == 0), fmt("masked run rc=%d reduced run rc=%d (kept=%d active targets=%zu)", errM, errR, s.nkept(), t.active.size()));
+    int errR = krige(dinR.get(), doutR.get(), neighR.get());
+    c.truth("kriging:rc", K + ":return-code", (errM == 0) == (errR == 0), fmt("masked run rc=%d reduced run rc=%d (kept=%d active targets=%zu)", errM, errR, s.nkept(), active.size()));
     if (errM == 0 && errR == 0)
-      cmpOutputs(c, "kriging", K, doutM.get(), ncM, t.active, off, doutR.get(), ncR, true, 0, 0);
+      cmpOutputs(c, "kriging", K, doutM.get(), ncM, active, off, doutR.get(), ncR, true, 0, 0);
   }
   c.truth("kriging:target-untouched", "C05:kriging:" + nd + ":target-columns-modified", sameSnapshot(snapOut, snapshot(doutM.get(), ncM)),
           "pre-existing columns of the target Db changed");
+  if (errM == 0) // (what a FAILED call leaves behind is C19's subject)
   c.truth("kriging:data-untouched", "C05:kriging:" + nd + ":data-columns-modified",
           dinM->getColumnNumber() == ncDin && sameSnapshot(snapIn, snapshot(dinM.get(), ncDin)), "data Db changed");
 }
@@ -368,7 +525,7 @@ static void opXvalid(Rng& r, Ctx& c)
   c.put("n_kept", fmt("[%d,%d]", s.n, s.nkept()));
   auto dM = mkMasked(r, s);
   auto dR = mkReduced(s);
-  std::string K = "C05:xvalid:" + nd + ":" + s.tag();
+  Key K = mkKey("xvalid", nd, s, ns.kind == 2);
   int ncM = dM->getColumnNumber(), ncR = dR->getColumnNumber();
   std::vector<double> snap = snapshot(dM.get(), ncM);
   TRACE(c, "xvalid %s n=%d kept=%d -> masked run", s.sigtag().c_str(), s.n, s.nkept());
@@ -379,7 +536,7 @@ static void opXvalid(Rng& r, Ctx& c)
   {
     std::string w;
     bool ok = allNewUndefined(dM.get(), ncM, w);
-    c.truth("xvalid:nothing-left", "C05:xvalid:" + nd + ":no-active-data:value-produced", ok, fmt("rc=%d ", errM) + w);
+    c.truth("xvalid:nothing-left", K.nothing("C05:xvalid:" + nd + ":no-active-data:value-produced"), ok, fmt("rc=%d ", errM) + w);
   }
   else
   {
@@ -478,7 +635,7 @@ static void opVario(Rng& r, Ctx& c)
   c.put("n_kept", fmt("[%d,%d]", s.n, s.nkept()));
   auto dM = mkMasked(r, s);
   auto dR = mkReduced(s);
-  std::string K = "C05:vario:" + (bySample ? std::string("by-sample") : cn) + ":" + s.tag();
+  Key K = mkKey("vario", bySample ? std::string("by-sample") : cn, s);
   int ncM = dM->getColumnNumber();
   std::vector<double> snap = snapshot(dM.get(), ncM);
   std::unique_ptr<Vario> vM(Vario::create(*vp)), vR(Vario::create(*vp));
@@ -547,15 +704,16 @@ static void opStats(Rng& r, Ctx& c)
     for (auto& col : s.z)
       for (auto& v : col)
         if (!FFFF(v)) v = std::round(v);
-  int which = r.irange(0, 3);
-  static const char* WN[] = {"dbStatisticsMono", "dbStatisticsMulti", "dbStatisticsCorrel", "dbVarianceMatrix"};
+  int which = r.irange(0, 6);
+  static const char* WN[] = {"dbStatisticsMono", "dbStatisticsMulti", "dbStatisticsCorrel", "dbVarianceMatrix",
+                             "correlationPairs", "hscatterPairs", "dbStatisticsPerCell"};
   c.setSig(fmt("stats:%s:nvar=%d:%s:w=%d:int=%d", WN[which], s.nvar, s.sigtag().c_str(), (int)!s.w.empty(), (int)ints));
   c.puts("op", WN[which]);
   c.put("n_kept", fmt("[%d,%d]", s.n, s.nkept()));
   auto dM = mkMasked(r, s);
   auto dR = mkReduced(s);
   VectorString names = varNames(s.nvar);
-  std::string K = std::string("C05:stats:") + WN[which] + ":" + s.tag();
+  Key K = mkKey("stats", WN[which], s);
   int ncM = dM->getColumnNumber();
   std::vector<double> snap = snapshot(dM.get(), ncM);
   bool empty = s.nkept() == 0;
@@ -626,6 +784,64 @@ static void opStats(Rng& r, Ctx& c)
       cmpMatExact(c, "stats:correl", K + ":differs", "table", tM, tR);
     }
   }
+  else if (which == 4 || which == 5)
+  {
+    // indices of the samples / pairs of samples where both variables are defined: mapped through the kept-sample map
+    std::string n1 = "z1", n2 = fmt("z%d", s.nvar);
+    std::unique_ptr<VarioParam> vp(VarioParam::createOmniDirection(4, 20., 0.5));
+    int ipas = r.irange(0, 3);
+    VectorVectorInt iM = which == 4 ? correlationPairs(dM.get(), dM.get(), n1, n2) : hscatterPairs(dM.get(), n1, n2, vp.get(), ipas, 0);
+    if (empty)
+    {
+      bool ok = iM.empty() || (iM[0].empty() && iM[1].empty());
+      c.truth("stats:nothing-left", K.nothing(std::string("C05:stats:") + WN[which] + ":no-active-data:value-produced"), ok, "pairs returned");
+    }
+    else
+    {
+      VectorVectorInt iR = which == 4 ? correlationPairs(dR.get(), dR.get(), n1, n2) : hscatterPairs(dR.get(), n1, n2, vp.get(), ipas, 0);
+      bool ok = iM.size() == iR.size();
+      std::string w = fmt("outer size %zu vs %zu", (size_t)iM.size(), (size_t)iR.size());
+      for (size_t a = 0; ok && a < iM.size(); a++)
+      {
+        ok = iM[a].size() == iR[a].size();
+        if (!ok) w = fmt("number of pairs masked-run=%zu reduced-run=%zu", (size_t)iM[a].size(), (size_t)iR[a].size());
+        for (size_t k = 0; ok && k < iM[a].size(); k++)
+        {
+          int ir = iR[a][k];
+          ok = ir >= 0 && ir < s.nkept() && iM[a][k] == s.kept[ir];
+          if (!ok) w = fmt("pair %zu: masked-run sample %d, reduced-run sample %d (= original %d)", k, iM[a][k], ir, (ir >= 0 && ir < s.nkept()) ? s.kept[ir] : -1);
+        }
+      }
+      c.truth("stats:pairs", K + ":differs", ok, w);
+    }
+  }
+  else if (which == 6)
+  {
+    GridT g = genGrid(r, s, 12);
+    auto grid = mkGrid(g, false);
+    static const std::vector<EStatOption> ops = {EStatOption::NUM, EStatOption::MEAN, EStatOption::SUM, EStatOption::STDV, EStatOption::VAR,
+                                                 EStatOption::MINI, EStatOption::MAXI, EStatOption::MEAN2, EStatOption::SUM2,
+                                                 EStatOption::COV, EStatOption::CORR};
+    EStatOption op = r.pick(ops);
+    std::string n1 = "z1", n2 = s.nvar > 1 ? "z2" : "";
+    K += ":" + std::string(op.getKey());
+    VectorDouble vM = dbStatisticsPerCell(dM.get(), grid.get(), op, n1, n2);
+    if (empty && op == EStatOption::CORR)
+      // an EMPTY cell gets CORR = TEST / (TEST * TEST) = 8.1e-31 instead of TEST, masks or not (Classical.cpp,
+      // dbStatisticsPerCell "Dispatch": v1, v2, v12 were set to TEST) - not a C05 matter, reported
+      c.skip("percell-corr-of-empty-cell");
+    else if (empty)
+    {
+      bool ok = true;
+      for (double v : vM) ok = ok && (FFFF(v) || v == 0);
+      c.truth("stats:nothing-left", K.nothing(std::string("C05:stats:") + WN[which] + ":no-active-data:value-produced"), ok, "");
+    }
+    else
+    {
+      VectorDouble vR = dbStatisticsPerCell(dR.get(), grid.get(), op, n1, n2);
+      cmpVecExact(c, "stats:percell", K + ":differs", "cells", vM, vR);
+    }
+  }
   else
   {
     MatrixSquareSymmetric mM = dbVarianceMatrix(dM.get());
@@ -688,7 +904,8 @@ static void opCovMat(Rng& r, Ctx& c)
   auto dR = mkReduced(s);
   auto tM = mkTargetsMasked(t);
   auto tR = mkTargetsReduced(t);
-  std::string K = std::string("C05:") + WN[which] + ":" + s.tag() + (twoDb ? ":two-db" : "") + (useNbgh ? ":nbgh" : "");
+  Key K = mkKey(WN[which], "", s, false, "covmat");
+  K += std::string(twoDb ? ":two-db" : "") + (useNbgh ? ":nbgh" : "");
   bool nothing = s.nkept() == 0 || (twoDb && t.active.empty());
   Db* d2M = twoDb ? tM.get() : nullptr;
   Db* d2R = twoDb ? tR.get() : nullptr;
@@ -696,6 +913,11 @@ static void opCovMat(Rng& r, Ctx& c)
   // a fresh copy of the model for each call (the optimised builders keep per-model state)
   std::unique_ptr<Model> mA(model->duplicate()), mB(model->duplicate());
   std::unique_ptr<AMatrix> a, b;
+  // These builders are plain functions (no calculator catching errors): an exception thrown while evaluating a
+  // covariance on a dropped sample (e.g. MATERN at the distance 1.234e30 of an undefined coordinate: "Argument x too
+  // large in __bessel_ik") escapes to the caller.  It is reported under the key of the case, not a generic one.
+  try
+  {
   switch (which)
   {
     case 0:
@@ -723,11 +945,17 @@ static void opCovMat(Rng& r, Ctx& c)
       if (!nothing) b.reset(new MatrixRectangular(mB->evalDriftMatrix(dR.get(), ivar0, nbR)));
       break;
   }
+  }
+  catch (const std::runtime_error& e)
+  {
+    c.check("covmat:no-exception", K + ":exception", false, 1, 0, std::string("exception escaped: ") + e.what());
+    return;
+  }
   if (nothing)
   {
     // (the sparse builder returns a 1x1 matrix holding 0 for an empty triplet list: no value either)
     bool ok = !a || a->getNRows() == 0 || a->getNCols() == 0 || (a->getNRows() == 1 && a->getNCols() == 1 && a->getValue(0, 0) == 0.);
-    c.truth("covmat:nothing-left", std::string("C05:") + WN[which] + ":no-active-sample:matrix-produced", ok,
+    c.truth("covmat:nothing-left", K.nothing(std::string("C05:") + WN[which] + ":no-active-sample:matrix-produced"), ok,
             a ? fmt("matrix %dx%d", a->getNRows(), a->getNCols()) : "");
     return;
   }
@@ -750,46 +978,91 @@ static void opSimtub(Rng& r, Ctx& c)
   GenOpt o;
   o.nmax    = c.thorough() ? 70 : 30;
   o.nvarMax = 2;
+  // The extension of the field along each band (CalcSimuTurningBands::_minmax) is taken over every ACTIVE sample,
+  // whatever its values or coordinates: a far-away or undefined (1.234e30) coordinate makes the number of Poisson
+  // points per band explode (the call does not return in any reasonable time, GBs of memory).  So here samples
+  // with undefined values keep a clean location inside the field (a leak then still moves the field extension),
+  // and undefined coordinates are not generated at all for this operation (stated in the report).
+  o.undefKeepCoord = true;
+  o.allowUcoord    = false;
   Samples s = genSamples(r, o);
   defineDefaultSpace(ESpaceType::RN, s.ndim);
   bool cond  = r.coin(0.75);
   int drift  = r.irange(-1, 0);
   ModelSpec ms;
   auto model = genModel(r, s.ndim, s.nvar, drift, ms);
+  if (r.coin(0.2))
+  {
+    // intrinsic model (linear variogram): its turning-band generator is driven by the Poisson intensity that
+    // CalcSimuTurningBands::_setDensity derives from the number of points to simulate
+    VectorDouble sills(s.nvar * s.nvar, 0.);
+    for (int v = 0; v < s.nvar; v++) sills[v * s.nvar + v] = r.uni(0.5, 2.);
+    model.reset(Model::createFromParam(ECov::LINEAR, r.uni(20, 60), 1., 1., VectorDouble(), sills, VectorDouble(), nullptr, true));
+    drift = 0;
+    model->setDriftIRF(0, 0);
+    ms.desc = "LINEAR+drift=0";
+  }
   NeighSpec ns = genNeigh(r, s.ndim, r.coin(0.6));
   std::string nd = ns.desc;
-  Targets t  = genTargets(r, s, 4, c.thorough() ? 40 : 16);
+  // Conditional simulations go to a GRID: with a point target Db, CalcSimuTurningBands::_updateData2ToTarget reads
+  // the location of target #ik from the DATA Db (dbin->getSampleCoordinatesInPlace(ik, coor1)) and overwrites
+  // target #ik with the value of datum #ik whenever that datum is active - wrong whatever the selection (a C13
+  // matter, reported); it would make every masked-vs-reduced comparison differ for a reason foreign to C05.
+  Targets t = genTargets(r, s, 4, c.thorough() ? 40 : 16);
+  GridT g   = genGrid(r, s, c.thorough() ? 60 : 24);
   int nbsimu = r.irange(1, 3);
   int nbtuba = r.pick(std::vector<int> {1, 2, 3, 5, 10, 30, 100});
   int seed   = r.irange(1, 1000000);
   std::string kind = cond ? "simtub-cond" : "simtub-nc";
   if (!cond) nd = "none";
+  SelMode tsel = cond ? g.selMode : t.selMode;
+  int nact     = cond ? (int)g.active.size() : (int)t.active.size();
   c.setSig(fmt("%s:%s:ndim=%d:nvar=%d:%s:tsel=%s:drift=%d:nbtuba=%d", kind.c_str(), nd.c_str(), s.ndim, s.nvar, cond ? s.sigtag().c_str() : "-",
-               SELN[t.selMode], drift, nbtuba));
+               SELN[tsel], drift, nbtuba));
   c.puts("op", kind);
   c.puts("neigh", nd);
   c.puts("model", ms.desc);
-  c.put("n_kept_targets", fmt("[%d,%d,%d,%d]", s.n, s.nkept(), t.m, (int)t.active.size()));
+  c.put("n_kept_targets", fmt("[%d,%d,%d,%d]", s.n, s.nkept(), cond ? g.m : t.m, nact));
   auto dinM = mkMasked(r, s);
   auto dinR = mkReduced(s);
-  auto doutM = mkTargetsMasked(t);
-  auto doutR = mkTargetsReduced(t);
-  std::string K = "C05:" + kind + ":" + nd + ":" + (cond ? s.tag() : std::string("by=none")) + (t.selMode == SEL_NONE || t.selMode == SEL_FULL ? "" : ":tsel");
+  std::unique_ptr<Db> doutM, doutR;
+  std::vector<int> mapA, off;
+  const std::vector<int>* mapB = nullptr;
+  if (cond)
+  {
+    // the reference run uses the SAME masked grid: only the data are physically reduced.  (A grid cannot lose
+    // cells; and an unmasked grid is not a valid reference because the nugget component draws one gaussian per
+    // ACTIVE cell in sequence, so that the k-th active cell gets the k-th draw.)  Physically removed targets are
+    // monitored by the non-conditional variant below and by the kriging operation.
+    doutM = mkGrid(g, true);
+    doutR = mkGrid(g, true);
+    mapA  = g.active;
+    mapB  = &g.active;
+    for (int j = 0; j < g.m; j++) if (g.masked[j]) off.push_back(j);
+  }
+  else
+  {
+    doutM = mkTargetsMasked(t);
+    doutR = mkTargetsReduced(t);
+    mapA  = t.active;
+    for (int j = 0; j < t.m; j++) if (t.masked[j]) off.push_back(j);
+  }
+  Key K = cond ? mkKey(kind, "", s, ns.kind == 2) : Key {"C05:" + kind + ":by=none", false};
   int ncM = doutM->getColumnNumber(), ncR = doutR->getColumnNumber(), ncDin = dinM->getColumnNumber();
   std::vector<double> snapOut = snapshot(doutM.get(), ncM), snapIn = snapshot(dinM.get(), ncDin);
   auto neigh = mkNeigh(ns, false), neighR = mkNeigh(ns, false);
-  bool nothing = (cond && s.nkept() == 0) || t.active.empty();
-  TRACE(c, "%s %s n=%d kept=%d targets=%d active=%zu nbtuba=%d -> masked run", kind.c_str(), s.sigtag().c_str(), s.n, s.nkept(), t.m, t.active.size(), nbtuba);
+  bool nothing = (cond && s.nkept() == 0) || nact == 0;
+  TRACE(c, "%s %s n=%d kept=%d active targets=%d nbtuba=%d -> masked run", kind.c_str(), s.sigtag().c_str(), s.n, s.nkept(), nact, nbtuba);
   int errM = simtub(cond ? dinM.get() : nullptr, doutM.get(), model.get(), cond ? neigh.get() : nullptr, nbsimu, seed, nbtuba);
-  std::vector<int> off;
-  for (int j = 0; j < t.m; j++) if (t.masked[j]) off.push_back(j);
+  // "Masked target sites are left untouched and keep the undefined value in newly created output variables"
+  std::string Koff = "C05:simtub:masked-target-not-TEST";
   if (nothing)
   {
-    if (t.active.empty())
+    if (nact == 0)
     {
       std::string w;
       bool ok = allNewUndefined(doutM.get(), ncM, w);
-      c.truth("simtub:nothing-left", "C05:" + kind + ":no-active-target:value-produced", ok, fmt("rc=%d ", errM) + w);
+      c.truth("simtub:off-rows-TEST", Koff, ok, fmt("(no active target) rc=%d ", errM) + w);
     }
     else
       c.probe("simtub:no-active-data"); // conditional simulation without any active datum: no reference to compare with
@@ -798,12 +1071,12 @@ static void opSimtub(Rng& r, Ctx& c)
   {
     TRACE(c, "-> reduced run");
     int errR = simtub(cond ? dinR.get() : nullptr, doutR.get(), model.get(), cond ? neighR.get() : nullptr, nbsimu, seed, nbtuba);
-    c.truth("simtub:rc", K + ":return-code", (errM == 0) == (errR == 0), fmt("masked run rc=%d reduced run rc=%d (kept=%d active targets=%zu)", errM, errR, s.nkept(), t.active.size()));
+    c.truth("simtub:rc", K + ":return-code", (errM == 0) == (errR == 0), fmt("masked run rc=%d reduced run rc=%d (kept=%d active targets=%d)", errM, errR, s.nkept(), nact));
     if (errM == 0 && errR == 0)
-      cmpOutputs(c, "simtub", K, doutM.get(), ncM, t.active, off, doutR.get(), ncR, true, 0, 0);
+      cmpOutputs(c, "simtub", K, doutM.get(), ncM, mapA, off, doutR.get(), ncR, true, 0, 0, Koff, mapB);
   }
   c.truth("simtub:target-untouched", "C05:" + kind + ":target-columns-modified", sameSnapshot(snapOut, snapshot(doutM.get(), ncM)), "pre-existing columns of the target Db changed");
-  if (cond)
+  if (cond && errM == 0) // (what a FAILED call leaves behind is C19's subject)
     c.truth("simtub:data-untouched", "C05:" + kind + ":data-columns-modified",
             dinM->getColumnNumber() == ncDin && sameSnapshot(snapIn, snapshot(dinM.get(), ncDin)),
             fmt("data Db changed (columns %d -> %d)", ncDin, dinM->getColumnNumber()));
@@ -831,7 +1104,7 @@ static void opMigrate(Rng& r, Ctx& c)
   int distType = r.irange(1, 2);
   VectorDouble dmax;
   if (r.coin(0.5)) { dmax.resize(s.ndim); for (auto& d : dmax) d = r.uni(10, 60); }
-  bool ball = r.coin(0.4);
+  bool ball = r.coin(0.4) && !avoid("ball", AVOID_BALL);
   bool multi = s.nvar > 1 && r.coin(0.5);
   std::string var = ball ? "ball" : "plain";
   c.setSig(fmt("migrate:%s:ndim=%d:nvar=%d:%s:tsel=%s:dist=%d:dmax=%d:multi=%d", var.c_str(), s.ndim, s.nvar, s.sigtag().c_str(), SELN[t.selMode], distType,
@@ -843,7 +1116,7 @@ static void opMigrate(Rng& r, Ctx& c)
   auto dinR = mkReduced(s);
   auto doutM = mkTargetsMasked(t);
   auto doutR = mkTargetsReduced(t);
-  std::string K = "C05:migrate:" + var + ":" + s.tag() + (t.selMode == SEL_NONE || t.selMode == SEL_FULL ? "" : ":tsel");
+  Key K = mkKey("migrate", var, s, ball);
   int ncM = doutM->getColumnNumber(), ncR = doutR->getColumnNumber(), ncDin = dinM->getColumnNumber();
   std::vector<double> snapOut = snapshot(doutM.get(), ncM), snapIn = snapshot(dinM.get(), ncDin);
   bool nothing = s.nkept() == 0 || t.active.empty();
@@ -859,7 +1132,7 @@ static void opMigrate(Rng& r, Ctx& c)
   {
     std::string w;
     bool ok = allNewUndefined(doutM.get(), ncM, w);
-    c.truth("migrate:nothing-left", "C05:migrate:" + var + (s.nkept() == 0 ? ":no-active-data" : ":no-active-target") + ":value-produced", ok, fmt("rc=%d ", errM) + w);
+    c.truth("migrate:nothing-left", K.nothing("C05:migrate:" + var + (s.nkept() == 0 ? ":no-active-data" : ":no-active-target") + ":value-produced"), ok, fmt("rc=%d ", errM) + w);
   }
   else
   {
@@ -873,6 +1146,403 @@ static void opMigrate(Rng& r, Ctx& c)
   c.truth("migrate:data-untouched", "C05:migrate:data-columns-modified", dinM->getColumnNumber() == ncDin && sameSnapshot(snapIn, snapshot(dinM.get(), ncDin)), "data Db changed");
 }
 
+
+// ===================================================================================================
+// the selection / definedness predicates and selection-aware getters of Db themselves, against what the harness
+// knows about the sample set (anchor: Db::isActive, getSelection, isActiveAndDefined, getRanksActive, ...)
+// ===================================================================================================
+static void opDbPredicates(Rng& r, Ctx& c)
+{
+  GenOpt o;
+  o.nmax        = c.thorough() ? 200 : 50;
+  o.nvarMax     = 3;
+  o.allowUcoord = false;
+  o.pWeight     = 0.3;
+  Samples s;
+  for (;;)
+  {
+    s = genSamples(r, o);
+    if (s.by == BY_NONE || s.by == BY_SEL || s.by == BY_SELNA) break; // selection only: values stay as generated
+  }
+  defineDefaultSpace(ESpaceType::RN, s.ndim);
+  c.setSig(fmt("db-predicates:ndim=%d:nvar=%d:%s:w=%d", s.ndim, s.nvar, s.sigtag().c_str(), (int)!s.w.empty()));
+  c.puts("op", "Db predicates and selection-aware getters");
+  c.put("n_kept", fmt("[%d,%d]", s.n, s.nkept()));
+  auto dM = mkMasked(r, s);
+  auto dR = mkReduced(s);
+  Key K   = mkKey("db", "", s);
+  const Db* db = dM.get();
+  int nk = s.nkept();
+  // counts
+  c.truth("db:getSampleNumber", K + ":getSampleNumber", db->getSampleNumber(false) == s.n && db->getSampleNumber(true) == nk,
+          fmt("getSampleNumber(false)=%d (n=%d) getSampleNumber(true)=%d (active=%d)", db->getSampleNumber(false), s.n, db->getSampleNumber(true), nk));
+  // isActive / getSelection / getActiveArray
+  {
+    bool ok = true;
+    std::string w;
+    VectorBool aa = db->getActiveArray();
+    for (int i = 0; i < s.n && ok; i++)
+    {
+      bool want = s.cls[i] == KEEP;
+      if (db->isActive(i) != want || (db->getSelection(i) != 0) != want || (bool)aa[i] != want)
+      { ok = false; w = fmt("sample %d: isActive=%d getSelection=%d getActiveArray=%d expected %d", i, (int)db->isActive(i), db->getSelection(i), (int)aa[i], (int)want); }
+    }
+    c.truth("db:isActive", K + ":isActive", ok, w);
+  }
+  // ranks
+  {
+    VectorInt ra = db->getRanksActive();
+    bool ok = (int)ra.size() == nk;
+    for (int k = 0; ok && k < nk; k++) ok = ra[k] == s.kept[k];
+    c.truth("db:getRanksActive", K + ":getRanksActive", ok, fmt("size %zu expected %d", (size_t)ra.size(), nk));
+    bool ok2 = true;
+    std::string w;
+    for (int k = 0; k < nk && ok2; k++)
+      if (db->getRankRelativeToAbsolute(k) != s.kept[k] || db->getRankAbsoluteToRelative(s.kept[k]) != k)
+      { ok2 = false; w = fmt("relative %d <-> absolute %d: got abs=%d rel=%d", k, s.kept[k], db->getRankRelativeToAbsolute(k), db->getRankAbsoluteToRelative(s.kept[k])); }
+    c.truth("db:rank-conversion", K + ":rank-conversion", ok2, w);
+  }
+  // per variable: active and defined
+  for (int v = 0; v < s.nvar; v++)
+  {
+    std::vector<int> want;
+    for (int i : s.kept) if (!FFFF(s.z[v][i])) want.push_back(i);
+    VectorInt ra = db->getRanksActive(VectorInt(), v);
+    bool ok = ra.size() == want.size();
+    for (size_t k = 0; ok && k < want.size(); k++) ok = ra[k] == want[k];
+    c.truth("db:getRanksActive(item)", K + ":getRanksActive-item", ok, fmt("variable %d: size %zu expected %zu", v, (size_t)ra.size(), want.size()));
+    int n1 = db->getActiveAndDefinedNumber(v), n2 = db->getNumberActiveAndDefined(v);
+    c.truth("db:activeAndDefinedNumber", K + ":activeAndDefinedNumber", n1 == (int)want.size() && n2 == (int)want.size(),
+            fmt("variable %d: getActiveAndDefinedNumber=%d getNumberActiveAndDefined=%d expected %zu", v, n1, n2, want.size()));
+    bool ok3 = true;
+    for (int i = 0; i < s.n && ok3; i++) ok3 = db->isActiveAndDefined(i, v) == (s.cls[i] == KEEP && !FFFF(s.z[v][i]));
+    c.truth("db:isActiveAndDefined", K + ":isActiveAndDefined", ok3);
+  }
+  {
+    VectorVectorInt mr = db->getMultipleRanksActive();
+    bool ok = (int)mr.size() == s.nvar;
+    for (int v = 0; ok && v < s.nvar; v++)
+    {
+      std::vector<int> want;
+      for (int i : s.kept) if (!FFFF(s.z[v][i])) want.push_back(i);
+      ok = mr[v].size() == want.size();
+      for (size_t k = 0; ok && k < want.size(); k++) ok = mr[v][k] == want[k];
+    }
+    c.truth("db:getMultipleRanksActive", K + ":getMultipleRanksActive", ok);
+  }
+  // columns read through the selection == columns of the reduced Db
+  if (nk > 0)
+  {
+    VectorString names = varNames(s.nvar);
+    for (auto& nm : coordNames(s.ndim)) names.push_back(nm);
+    if (!s.w.empty()) names.push_back("w");
+    for (auto& nm : names)
+    {
+      VectorDouble a = db->getColumn(nm, true, true), b = dR->getColumn(nm, false, true);
+      cmpVecExact(c, "db:getColumn(useSel,compress)", K + ":getColumn-compressed", nm, a, b);
+      VectorDouble full = db->getColumn(nm, true, false);
+      bool ok = (int)full.size() == s.n;
+      std::string w = fmt("size %zu", (size_t)full.size());
+      for (int i = 0, k = 0; ok && i < s.n; i++)
+      {
+        if (s.cls[i] == KEEP) { ok = sameBits(full[i], b[k]); k++; }
+        else ok = full[i] == TEST;
+        if (!ok) w = fmt("%s[%d]=%.17g", nm.c_str(), i, full[i]);
+      }
+      c.truth("db:getColumn(useSel,nocompress)", K + ":getColumn-uncompressed", ok, w);
+    }
+    cmpVecExact(c, "db:getColumns", K + ":getColumns", "getColumns", db->getColumns(varNames(s.nvar), true, true), dR->getColumns(varNames(s.nvar), false, true));
+    cmpVecExact(c, "db:getColumnsByLocator", K + ":getColumnsByLocator", "Z", db->getColumnsByLocator(ELoc::Z, true, true), dR->getColumnsByLocator(ELoc::Z, false, true));
+    cmpVecExact(c, "db:getColumnsActiveAndDefined", K + ":getColumnsActiveAndDefined", "Z", db->getColumnsActiveAndDefined(ELoc::Z), dR->getColumnsActiveAndDefined(ELoc::Z));
+    cmpVecExact(c, "db:getMultipleValuesActive", K + ":getMultipleValuesActive", "Z", db->getMultipleValuesActive(), dR->getMultipleValuesActive());
+    for (int d = 0; d < s.ndim; d++)
+    {
+      cmpVecExact(c, "db:getCoordinates", K + ":getCoordinates", fmt("x%d", d + 1), db->getCoordinates(d, true), dR->getCoordinates(d, false));
+      cmpVecExact(c, "db:getExtrema", K + ":getExtrema", fmt("x%d", d + 1), db->getExtrema(d, true), dR->getExtrema(d, false));
+    }
+    cmpVecExact(c, "db:getCoorMinimum", K + ":getCoorMinimum", "min", db->getCoorMinimum(true), dR->getCoorMinimum(false));
+    cmpVecExact(c, "db:getCoorMaximum", K + ":getCoorMaximum", "max", db->getCoorMaximum(true), dR->getCoorMaximum(false));
+    cmpVecExact(c, "db:getCenters", K + ":getCenters", "centers", db->getCenters(true), dR->getCenters(false));
+    c.close("db:getExtensionDiagonal", K + ":getExtensionDiagonal", db->getExtensionDiagonal(true), dR->getExtensionDiagonal(false), 0);
+    if (!s.w.empty())
+      cmpVecExact(c, "db:getWeights", K + ":getWeights", "w", db->getWeights(true), dR->getWeights(false));
+    // the library's own reduction helpers against the harness' reduced Db
+    {
+      std::unique_ptr<Db> cr(Db::createReduce(db));
+      bool ok = cr && cr->getSampleNumber() == nk;
+      c.truth("db:createReduce", K + ":createReduce", ok, fmt("createReduce has %d samples, expected %d", cr ? cr->getSampleNumber() : -1, nk));
+      if (ok)
+        for (auto& nm : names)
+          cmpVecExact(c, "db:createReduce", K + ":createReduce", nm, cr->getColumn(nm, false, false), dR->getColumn(nm, false, false));
+      std::unique_ptr<Db> del(db->clone());
+      VectorInt drop;
+      for (int i = 0; i < s.n; i++) if (s.cls[i] != KEEP) drop.push_back(i);
+      if (!drop.empty())
+      {
+        int err = del->deleteSamples(drop);
+        bool ok2 = err == 0 && del->getSampleNumber() == nk;
+        c.truth("db:deleteSamples", K + ":deleteSamples", ok2, fmt("rc=%d samples=%d expected %d", err, del->getSampleNumber(), nk));
+        if (ok2)
+          for (auto& nm : names)
+            cmpVecExact(c, "db:deleteSamples", K + ":deleteSamples", nm, del->getColumn(nm, false, false), dR->getColumn(nm, false, false));
+      }
+    }
+  }
+}
+
+
+// ===================================================================================================
+// gaussian anamorphosis: fit on a Db (+ transform of the Db through the fitted function)
+// ===================================================================================================
+static void opAnam(Rng& r, Ctx& c)
+{
+  GenOpt o;
+  o.nmin = 12; o.nmax = c.thorough() ? 200 : 50;
+  o.nvarMax = 1;
+  o.allowUcoord = false;
+  o.pWeight = 0.3;
+  o.minKept = 6;
+  o.allowEmpty = false;
+  Samples s = genSamples(r, o);
+  defineDefaultSpace(ESpaceType::RN, s.ndim);
+  int nbpoly   = r.irange(3, 12);
+  bool byLoc   = r.coin();
+  c.setSig(fmt("anam:hermite:%s:%s:w=%d", byLoc ? "fitFromLocator" : "fit", s.sigtag().c_str(), (int)!s.w.empty()));
+  c.puts("op", "AnamHermite::fit + rawToGaussian");
+  c.put("n_kept", fmt("[%d,%d]", s.n, s.nkept()));
+  auto dM = mkMasked(r, s);
+  auto dR = mkReduced(s);
+  Key K = mkKey("anam-fit", "", s);
+  std::unique_ptr<AnamHermite> aM(AnamHermite::create(nbpoly)), aR(AnamHermite::create(nbpoly));
+  int ncM = dM->getColumnNumber(), ncR = dR->getColumnNumber();
+  std::vector<double> snap = snapshot(dM.get(), ncM);
+  TRACE(c, "anam %s n=%d kept=%d", s.sigtag().c_str(), s.n, s.nkept());
+  int eM = byLoc ? aM->fitFromLocator(dM.get()) : aM->fit(dM.get(), "z1");
+  int eR = byLoc ? aR->fitFromLocator(dR.get()) : aR->fit(dR.get(), "z1");
+  c.truth("anam:rc", K + ":return-code", (eM == 0) == (eR == 0), fmt("masked run rc=%d reduced run rc=%d", eM, eR));
+  if (eM == 0 && eR == 0)
+  {
+    cmpVecExact(c, "anam:psi", K + ":coefficients-differ", "psi", aM->getPsiHns(), aR->getPsiHns());
+    c.close("anam:variance", K + ":variance-differs", aM->getVariance(), aR->getVariance(), 0);
+    // transform the Db with its own anamorphosis: masked rows keep TEST in the new variable
+    int tM = aM->rawToGaussian(dM.get(), "z1"), tR = aR->rawToGaussian(dR.get(), "z1");
+    c.truth("anam:transform-rc", K + ":transform-return-code", (tM == 0) == (tR == 0), fmt("masked run rc=%d reduced run rc=%d", tM, tR));
+    std::vector<int> off;
+    for (int i = 0; i < s.n; i++) if (s.cls[i] & MASKED) off.push_back(i);
+    if (tM == 0 && tR == 0)
+      cmpOutputs(c, "anam-transform", mkKey("anam-transform", "", s), dM.get(), ncM, s.kept, off, dR.get(), ncR, true, 0, 0,
+                 "C05:anam-transform:masked-row-not-TEST");
+  }
+  c.truth("anam:data-untouched", "C05:anam:data-columns-modified", sameSnapshot(snap, snapshot(dM.get(), ncM)), "pre-existing columns changed");
+}
+
+// ===================================================================================================
+// PCA / MAF: fit on a Db, then factors
+// ===================================================================================================
+static void opPCA(Rng& r, Ctx& c)
+{
+  GenOpt o;
+  o.nmin = 12; o.nmax = c.thorough() ? 200 : 50;
+  o.nvarMax = 3;
+  o.minKept = 6;
+  o.allowEmpty = false;
+  o.allowUcoord = false;
+  Samples s;
+  for (;;) { s = genSamples(r, o); if (s.nvar >= 2) break; }
+  bool maf = r.coin(0.4);
+  defineDefaultSpace(ESpaceType::RN, s.ndim);
+  c.setSig(fmt("%s:ndim=%d:nvar=%d:%s", maf ? "maf" : "pca", s.ndim, s.nvar, s.sigtag().c_str()));
+  c.puts("op", maf ? "PCA::maf_compute + dbZ2F" : "PCA::pca_compute + dbZ2F");
+  c.put("n_kept", fmt("[%d,%d]", s.n, s.nkept()));
+  auto dM = mkMasked(r, s);
+  auto dR = mkReduced(s);
+  Key K = mkKey(maf ? "maf-fit" : "pca-fit", "", s);
+  int ncM = dM->getColumnNumber(), ncR = dR->getColumnNumber();
+  std::vector<double> snap = snapshot(dM.get(), ncM);
+  PCA pM(s.nvar), pR(s.nvar);
+  std::unique_ptr<VarioParam> vp(VarioParam::createOmniDirection(4, r.uni(10, 25), 0.5));
+  TRACE(c, "pca/maf %s n=%d kept=%d", s.sigtag().c_str(), s.n, s.nkept());
+  int eM = maf ? pM.maf_compute(dM.get(), *vp, 1, 0) : pM.pca_compute(dM.get());
+  int eR = maf ? pR.maf_compute(dR.get(), *vp, 1, 0) : pR.pca_compute(dR.get());
+  c.truth("pca:rc", K + ":return-code", (eM == 0) == (eR == 0), fmt("masked run rc=%d reduced run rc=%d", eM, eR));
+  if (eM == 0 && eR == 0)
+  {
+    cmpVecExact(c, "pca:means", K + ":differs", "means", pM.getMeans(), pR.getMeans());
+    cmpVecExact(c, "pca:sigmas", K + ":differs", "sigmas", pM.getSigmas(), pR.getSigmas());
+    cmpMatExact(c, "pca:c0", K + ":differs", "c0", pM.getC0(), pR.getC0());
+    cmpVecExact(c, "pca:eigvals", K + ":differs", "eigvals", pM.getEigVals(), pR.getEigVals());
+    cmpMatExact(c, "pca:eigvecs", K + ":differs", "eigvecs", pM.getEigVecs(), pR.getEigVecs());
+    int tM = pM.dbZ2F(dM.get()), tR = pR.dbZ2F(dR.get());
+    c.truth("pca:z2f-rc", K + ":z2f-return-code", (tM == 0) == (tR == 0), fmt("masked run rc=%d reduced run rc=%d", tM, tR));
+    std::vector<int> off;
+    for (int i = 0; i < s.n; i++) if (s.cls[i] & MASKED) off.push_back(i);
+    if (tM == 0 && tR == 0)
+      cmpOutputs(c, "pca-z2f", mkKey("pca-z2f", "", s), dM.get(), ncM, s.kept, off, dR.get(), ncR, true, 0, 0);
+  }
+  c.truth("pca:data-untouched", "C05:pca:data-columns-modified", sameSnapshot(snap, snapshot(dM.get(), ncM)), "pre-existing columns changed");
+}
+
+// ===================================================================================================
+// polygons: selection from a polygon (db_polygon, previous selection taken into account), convex hull of the ACTIVE
+// samples (Polygons::createFromDb, db_selhull)
+// ===================================================================================================
+static void opPolygon(Rng& r, Ctx& c)
+{
+  GenOpt o;
+  o.ndimMin = o.ndimMax = 2;
+  o.nmax = c.thorough() ? 150 : 40;
+  o.nvarMax = 1;
+  o.minKept = 4;
+  o.allowEmpty = false;
+  Samples s;
+  for (;;) { s = genSamples(r, o); if (s.by == BY_NONE || s.by == BY_SEL || s.by == BY_SELNA) break; }
+  defineDefaultSpace(ESpaceType::RN, 2);
+  int which = r.irange(0, 2);
+  static const char* WN[] = {"db_polygon", "Polygons::createFromDb", "db_selhull"};
+  c.setSig(fmt("polygon:%s:%s", WN[which], s.sigtag().c_str()));
+  c.puts("op", WN[which]);
+  c.put("n_kept", fmt("[%d,%d]", s.n, s.nkept()));
+  auto dM = mkMasked(r, s);
+  auto dR = mkReduced(s);
+  Key K = mkKey(WN[which], "", s);
+  int ncM = dM->getColumnNumber(), ncR = dR->getColumnNumber();
+  std::vector<int> off;
+  for (int i = 0; i < s.n; i++) if (s.cls[i] & MASKED) off.push_back(i);
+  TRACE(c, "polygon %s %s n=%d kept=%d", WN[which], s.sigtag().c_str(), s.n, s.nkept());
+  if (which == 0)
+  {
+    // a random convex quadrilateral around the centre of the field
+    VectorDouble px, py;
+    double cx = r.uni(30, 70), cy = r.uni(30, 70);
+    int nv = r.irange(3, 6);
+    std::vector<double> ang(nv);
+    for (auto& a : ang) a = r.uni(0, 6.283185307);
+    std::sort(ang.begin(), ang.end());
+    for (int k = 0; k < nv; k++) { double rad = r.uni(20, 45); px.push_back(cx + rad * std::cos(ang[k])); py.push_back(cy + rad * std::sin(ang[k])); }
+    px.push_back(px[0]); py.push_back(py[0]);
+    std::unique_ptr<Polygons> poly(Polygons::create());
+    poly->addPolyElem(PolyElem(px, py));
+    // flag_sel = true: "true if previous selection must be taken into account" => a masked sample stays off
+    db_polygon(dM.get(), poly.get(), true, false, false);
+    db_polygon(dR.get(), poly.get(), true, false, false);
+    VectorString na = newColumns(dM.get(), ncM), nb = newColumns(dR.get(), ncR);
+    if (c.truth("polygon:columns", K + ":new-columns-differ", na.size() == 1 && nb.size() == 1, "one selection expected"))
+    {
+      VectorDouble a = dM->getColumn(na[0], false, false), b = dR->getColumn(nb[0], false, false);
+      bool ok = true;
+      std::string w;
+      for (int k = 0; k < s.nkept() && ok; k++)
+        if (!sameBits(a[s.kept[k]], b[k])) { ok = false; w = fmt("sample %d: masked-run=%g reduced-run=%g", s.kept[k], a[s.kept[k]], b[k]); }
+      c.truth("polygon:sel-equal", K + ":differs", ok, w);
+      bool ok2 = true;
+      for (int i : off) if (a[i] != 0.) { ok2 = false; w = fmt("masked sample %d got selection value %g", i, a[i]); }
+      c.truth("polygon:masked-stays-off", K + ":masked-sample-selected", ok2, w);
+    }
+  }
+  else if (which == 1)
+  {
+    double dilate = r.coin() ? 0. : r.uni(1, 5);
+    std::unique_ptr<Polygons> pM(Polygons::createFromDb(dM.get(), dilate)), pR(Polygons::createFromDb(dR.get(), dilate));
+    if (c.truth("hull:null", K + ":null-result", (!pM) == (!pR), "one of the two is null") && pM)
+    {
+      bool same = pM->getPolyElemNumber() == pR->getPolyElemNumber() && pM->getPolyElemNumber() == 1;
+      if (c.truth("hull:count", K + ":differs", same, fmt("polyelems %d vs %d", pM->getPolyElemNumber(), pR->getPolyElemNumber())))
+      {
+        cmpVecExact(c, "hull:x", K + ":differs", "x", pM->getPolyElem(0).getX(), pR->getPolyElem(0).getX());
+        cmpVecExact(c, "hull:y", K + ":differs", "y", pM->getPolyElem(0).getY(), pR->getPolyElem(0).getY());
+      }
+    }
+  }
+  else
+  {
+    Targets t = genTargets(r, s, 5, 20);
+    auto tM = mkTargetsMasked(t);
+    auto tR = mkTargetsReduced(t);
+    int n1 = tM->getColumnNumber(), n2 = tR->getColumnNumber();
+    double dilate = r.coin() ? 0. : r.uni(1, 5);
+    bool nothing = t.active.empty();
+    int eM = db_selhull(dM.get(), tM.get(), dilate);
+    if (!nothing)
+    {
+      int eR = db_selhull(dR.get(), tR.get(), dilate);
+      c.truth("selhull:rc", K + ":return-code", (eM == 0) == (eR == 0), fmt("masked run rc=%d reduced run rc=%d", eM, eR));
+      VectorString na = newColumns(tM.get(), n1), nb = newColumns(tR.get(), n2);
+      if (eM == 0 && eR == 0 && c.truth("selhull:columns", K + ":new-columns-differ", na.size() == 1 && nb.size() == 1, "one selection expected"))
+      {
+        VectorDouble a = tM->getColumn(na[0], false, false), b = tR->getColumn(nb[0], false, false);
+        bool ok = true;
+        std::string w;
+        for (size_t k = 0; k < t.active.size() && ok; k++)
+          if (!sameBits(a[t.active[k]], b[k])) { ok = false; w = fmt("target %d: masked-run=%g reduced-run=%g", t.active[k], a[t.active[k]], b[k]); }
+        c.truth("selhull:sel-equal", K + ":differs", ok, w);
+      }
+    }
+  }
+}
+
+// ===================================================================================================
+// variogram map and variogram cloud of a point Db (results are grids)
+// ===================================================================================================
+static void cmpGrids(Ctx& c, const std::string& op, const Key& K, DbGrid* gM, DbGrid* gR)
+{
+  if (!c.truth(op + ":null", K + ":null-result", (!gM) == (!gR), fmt("masked-run %s reduced-run %s", gM ? "grid" : "null", gR ? "grid" : "null")) || !gM) return;
+  bool same = gM->getNDim() == gR->getNDim() && gM->getSampleNumber() == gR->getSampleNumber();
+  for (int d = 0; same && d < gM->getNDim(); d++)
+    same = gM->getNX(d) == gR->getNX(d) && sameBits(gM->getDX(d), gR->getDX(d)) && sameBits(gM->getX0(d), gR->getX0(d));
+  if (!c.truth(op + ":geometry", K + ":grid-geometry-differs", same,
+               fmt("dx[0] masked-run=%.17g reduced-run=%.17g", gM->getDX(0), gR->getDX(0)))) return;
+  bool cols = gM->getColumnNumber() == gR->getColumnNumber();
+  if (!c.truth(op + ":columns", K + ":columns-differ", cols, fmt("%d vs %d columns", gM->getColumnNumber(), gR->getColumnNumber()))) return;
+  for (int ic = 0; ic < gM->getColumnNumber(); ic++)
+    cmpVecExact(c, op + ":equal", K + ":differs", gM->getNameByColIdx(ic), gM->getColumnByColIdx(ic, false, false), gR->getColumnByColIdx(ic, false, false));
+}
+static void opVmapCloud(Rng& r, Ctx& c)
+{
+  GenOpt o;
+  o.ndimMax = 2;
+  o.nmax = c.thorough() ? 80 : 30;
+  o.nvarMax = 2;
+  o.minKept = 3;
+  o.allowEmpty = false;
+  o.allowUcoord = false; // (the map / cloud extents are computed from the coordinates of all samples: see rule)
+  bool cloud = r.coin(0.4);
+  if (!cloud) o.ndimMin = 2; // db_vmap refuses 1-D data
+  Samples s = genSamples(r, o);
+  if (cloud) { s.nvar = 1; s.z.resize(1); s.hetero = false; }
+  defineDefaultSpace(ESpaceType::RN, s.ndim);
+  bool dflt = r.coin(0.5); // let the function derive mesh / extents from the Db itself
+  c.setSig(fmt("%s:ndim=%d:nvar=%d:%s:default-extent=%d", cloud ? "vcloud" : "vmap", s.ndim, s.nvar, s.sigtag().c_str(), (int)dflt));
+  c.puts("op", cloud ? "db_vcloud" : "db_vmap");
+  c.put("n_kept", fmt("[%d,%d]", s.n, s.nkept()));
+  auto dM = mkMasked(r, s);
+  auto dR = mkReduced(s);
+  // default mesh / extents are derived from the Db by the function itself: one key per function for that feature
+  Key K = dflt ? Key {std::string("C05:") + (cloud ? "db_vcloud" : "db_vmap") + ":default-extent", true}
+               : mkKey(cloud ? "db_vcloud" : "db_vmap", "given-extent", s);
+  int ncM = dM->getColumnNumber();
+  std::vector<double> snap = snapshot(dM.get(), ncM);
+  TRACE(c, "%s %s n=%d kept=%d dflt=%d", cloud ? "vcloud" : "vmap", s.sigtag().c_str(), s.n, s.nkept(), (int)dflt);
+  if (cloud)
+  {
+    std::unique_ptr<VarioParam> vp(VarioParam::createOmniDirection(5, 20., 0.5));
+    double lagmax = dflt ? TEST : 120., varmax = dflt ? TEST : 30.;
+    std::unique_ptr<DbGrid> gM(db_vcloud(dM.get(), vp.get(), lagmax, varmax, 8, 6)), gR(db_vcloud(dR.get(), vp.get(), lagmax, varmax, 8, 6));
+    cmpGrids(c, "vcloud", K, gM.get(), gR.get());
+  }
+  else
+  {
+    static const std::vector<ECalcVario> calcs = {ECalcVario::VARIOGRAM, ECalcVario::COVARIANCE, ECalcVario::COVARIANCE_NC, ECalcVario::MADOGRAM};
+    ECalcVario calc = r.pick(calcs);
+    VectorInt nxx(s.ndim);
+    for (auto& v : nxx) v = r.irange(2, 4);
+    VectorDouble dxx;
+    if (!dflt) { dxx.resize(s.ndim); for (auto& v : dxx) v = r.uni(8, 20); }
+    std::unique_ptr<DbGrid> gM(db_vmap(dM.get(), calc, nxx, dxx, 0, false)), gR(db_vmap(dR.get(), calc, nxx, dxx, 0, false));
+    cmpGrids(c, "vmap", K, gM.get(), gR.get());
+  }
+  c.truth("vmap:data-untouched", "C05:vmap-vcloud:data-columns-modified", dM->getColumnNumber() == ncM && sameSnapshot(snap, snapshot(dM.get(), ncM)), "Db changed");
+}
+
 // ===================================================================================================
 struct OpDef
 {
@@ -884,10 +1554,15 @@ static const OpDef OPS[] = {
   {"kriging", opKriging, 4},
   {"xvalid", opXvalid, 3},
   {"vario", opVario, 3},
-  {"stats", opStats, 2},
+  {"stats", opStats, 4},
   {"covmat", opCovMat, 3},
   {"simtub", opSimtub, 3},
   {"migrate", opMigrate, 2},
+  {"db-predicates", opDbPredicates, 1},
+  {"anam", opAnam, 1},
+  {"pca", opPCA, 1},
+  {"polygon", opPolygon, 1},
+  {"vmap-vcloud", opVmapCloud, 1},
 };
 
 static void run_case(Rng& r, Ctx& c)
